@@ -36,6 +36,8 @@ func c20Vals(pattern, i int) float64 {
 		return float64(3 + i) // rising
 	case 1:
 		return float64(18 - 2*i) // falling
+	case 3:
+		return []float64{5, 5, 9, 9, 9, 3, 3, 12, 12, 6}[i] // resting phases: repeated readings, then a change
 	}
 	return []float64{7, 2.5, 11, 2.5, 30, 4, 4, 9.75, 1, 15}[i] // zig-zag with equal neighbours
 }
@@ -44,7 +46,7 @@ func init() {
 	mc.Register(&mc.Check{
 		ID:        "C20",
 		Technique: "exhaustive enumeration: all non-empty subsets of a 10-day window as series x value patterns x all query dates on the real interpolation function; whole runs reading series files in all date formats and all integer min/max pairs x phases over a full year, level compared on every day",
-		Rule: "func scenarios: every subset of a 10-day window (1023) x 3 value patterns x 16 query dates; series scenarios: gap/position classes x 4 date formats through gw_*.csv and the real run; sinus scenarios: integer GH<=GL in 1..20 x 4 phases, 366+ days each; " +
+		Rule: "func scenarios: every subset of a 10-day window (1023) x 4 value patterns (rising, falling, zig-zag, resting phases) x 16 query dates; series scenarios: gap/position classes x 4 date formats through gw_*.csv and the real run; sinus scenarios: integer GH<=GL in 1..20 x 4 phases, 366+ days each; " +
 			"case = (series, query date) or (min, max, phase, day); non-trivial = interpolated or extrapolated query, or sinusoid with GH<GL",
 		Assumptions: []string{"reference: piecewise-linear interpolation with nearest-value extrapolation, tolerance 1e-9 relative", "sinusoid reference: mean - amplitude*sin((day of year + phase) pi/180) as documented in the configuration comment"},
 		Bound:       func(t string) string { return "complete for the stated finite spaces (both tiers; thorough adds longer series windows and GH from 0)" },
@@ -56,15 +58,15 @@ func init() {
 		},
 		Scenarios: func(tier string, seed int) []json.RawMessage {
 			var out []c20Spec
-			for pat := 0; pat < 3; pat++ {
+			for pat := 0; pat < 4; pat++ {
 				for from := 1; from < 1024; from += 64 {
 					out = append(out, c20Spec{Kind: "func", MaskFrom: from, MaskTo: min(from+63, 1023), Pattern: pat})
 				}
 			}
-			series := [][]int{{-5}, {3}, {40}, {-5, 4}, {0, 1, 2, 3}, {2, 9}, {-30, -20}, {20, 30}, {1, 2, 4, 8, 16}, {-3, 0, 5, 6, 12, 13}, {5, 5 + 366}}
+			series := [][]int{{-5}, {3}, {40}, {-5, 4}, {0, 1, 2, 3}, {2, 9}, {-30, -20}, {20, 30}, {1, 2, 4, 8, 16}, {-3, 0, 5, 6, 12, 13}, {5, 5 + 366}, {0, 4, 9, 13, 17}, {-6, -2, 3, 8, 12, 15, 18}}
 			for _, f := range []string{"DateDElong", "DateENlong", "DateDEshort", "DateENshort"} {
 				for si, offs := range series {
-					for pat := 0; pat < 3; pat++ {
+					for pat := 0; pat < 4; pat++ {
 						var v []float64
 						for i := range offs {
 							v = append(v, c20Vals(pat, (i+si)%10))
